@@ -70,4 +70,18 @@ PROPS["C20"] = {
     "assumptions": ["I4"],
 }
 
+PROPS["C13"] = {
+    "level_text": "Theorems (Lean 4, all label sequences of the client multiplexer and client stream transition systems, any number of calls): the multiplexer's read loop never reaches a panic outcome and never sends on a closed channel; an envelope with an unknown id changes no call; a unary call reports success only with the body of an envelope that carried its id and no non-OK status; with or without stats handlers no reply classification dereferences nil; for streams Header() is always released, RecvMsg never returns success without an offered message, Trailer() never panics, what RecvMsg delivers is exactly the bodies up to the first terminal envelope and its terminal result is the verdict on that envelope; after the connection fails every call has an enabled step of its own and a measure decreases until all have returned. Negative witnesses for each repair flag. Tied to /repo by 8 flags and the multiplexer/stream skeletons (decide), and by an exact lock-step: response sequences over 60 envelope shapes addressed to a unary call, a stream and an unknown id are fed to the real client over a scripted transport, then the connection is closed; every call's result is compared with the model's specBodies/specTerminal/clientUnary.",
+    "level_note": "Trusted: Lean kernel; extractor; harness. Liveness is stated as enabledness plus a strictly decreasing measure (no fairness formalisation). A crash of the client process is detected by the check script and reported with the sequence in progress.",
+    "technique": "Lean 4 proof (inductive invariants over two labelled transition systems) + flags/skeletons regenerated from source + exact lock-step of the real client on bounded-exhaustive and random response sequences",
+    "props": ["Goat.MuxThms", "Goat.ClientStreamThms", "Goat.Props.C03"],
+    "tie": ["Goat.Tie.C13"],
+    "theorems": ["client_total_no_panic", "client_total_no_panic_without_stats", "no_send_on_closed", "unknown_id_dropped", "extra_envelopes_harmless", "no_fabricated_success",
+                 "fail_closes_all", "fail_enabled", "fail_terminates", "remaining_zero", "header_always_released", "recv_never_nil_without_message", "trailer_never_panics",
+                 "cs_recv_sequence", "cs_terminal_result_is_verdict", "recv_results_classified", "reset_is_never_success", "bad_okStatus", "bad_statsNilHeader", "bad_badMetaSetsErr", "bad_trailerNoPanic", "bad_resetIsError"],
+    "rule": "60 response envelope shapes (20 shapes x ids {unary call, stream call, unknown}): every single envelope (exhaustive), every pair (thorough: exhaustive), random sequences of length 2-4 and 5-24, alternately with and without a stats handler; non-trivial = every sequence",
+    "modelled_not_verified": COMMON_MNV,
+    "assumptions": ["the connection is closed after the sequence (the property's quantifier)"],
+}
+
 NOT_YET = {}
